@@ -119,7 +119,8 @@ pub fn judge(case: &Case, out_text: &str) -> Vec<(String, String)> {
     // one-to-one within the style: two different letters never share an image
     for a in 0..ic.len() {
         for b in a + 1..ic.len() {
-            if ic[a] != ic[b] && oc[a] == oc[b] {
+            // the one-to-one claim is about the letters of the mapping, not about already styled characters
+            if ic[a] != ic[b] && oc[a] == oc[b] && r.keys.contains(&ic[a]) && r.keys.contains(&ic[b]) {
                 v.push((format!("not-injective:{}", case.variant), format!("under mathvariant={} both {:?} and {:?} become {:?}", case.variant, ic[a], ic[b], oc[a])));
             }
         }
